@@ -328,8 +328,8 @@ def r5(ctx):
 
 
 def r_enum(ctx):
-    from .common import enum_identity
-    enum_identity(ctx, "C12.R6", ('connection', 'client', 'context', 'server'))
+    from .common import repo_idioms
+    repo_idioms(ctx, "C12.R6", ('connection', 'client', 'context', 'server'))
 
 
 RULES = [("C12.R1", r1), ("C12.R2", r2), ("C12.R3", r3), ("C12.R4", r4), ("C12.R5", r5), ("C12.R6", r_enum)]
